@@ -8,7 +8,7 @@ from props import ordlib as L
 PROP = "C09"
 PROPS_V = "theories/Props/C09.v"
 THEOREMS = ["C09_agg_merge_assoc_comm", "C09_agg_partition", "C09_total_is_wrapped_sum", "C09_int_column_metrics", "C09_agg_partition_refuted",
-            "C09_agg_partition_outside_known", "C09_each_event_one_group", "C09_pipeline_equals_fold", "C09_flow_alts_outside_known", "C09_limit_caps_groups",
+            "C09_agg_partition_outside_known", "C09_each_event_one_group", "C09_pipeline_equals_fold", "C09_flow_alts_single", "C09_merged_groups_alts_single", "C09_count_unique_texts", "C09_limit_caps_groups",
             "C09_bucket_contains", "C09_bucket_on_boundary", "C09_calendar_bucket_of_exact"]
 RULE = ("(1) full pipeline runs: 1-3 flows x 1-3 batches of generated rows (time, group-by values, metric field values of every "
         "runtime kind incl. nulls) through the real AggregateOp per flow and the real partial-row parser / AggState::merge / "
@@ -249,7 +249,7 @@ SCENARIOS = {
     "clean_int_nulls": ("int", 4, "clean", "ok", "cftamx", None),
     "clean_plain": ("plain", 0, "clean", "ok", "cfumx", None),
     "clean_ts": ("ts", 0, "clean", "ok", "cfumxta", None),
-    "uniq_typed": ("int", 5, "clean", "ok", "u", "CountUniqueTypedBatch"),
+    "uniq_typed": ("int", 5, "clean", "ok", "u", None),          # class CountUniqueTypedBatch fixed by 6631182
     "countfield_null": ("plain", 3, "clean", "ok", "f", "CountFieldNullInStringBatch"),
     "float_field": ("float", 0, "clean", "ok", "tamx", "NonIntegerMetricField"),
     "minmax_numstr": ("numstr", 0, "clean", "ok", "mx", "MinMaxNumericLookingStrings"),
@@ -257,7 +257,7 @@ SCENARIOS = {
     "empty_group": ("int", 0, "empty", "ok", "ct", "EmptyGroupDropped"),
     "group_numeric": ("int", 0, "numeric", "ok", "ct", "GroupKeyNumericNormalised"),
     "bad_time": ("int", 0, "clean", "bad", "ct", "BucketOfInvalidTime"),
-    "mixed_paths": ("intfloat", 0, "clean", "ok", "cta", "UngroupedMixedBatchPaths"),
+    "mixed_paths": ("intfloat", 0, "clean", "ok", "cta", None),  # class UngroupedMixedBatchPaths fixed by d49da47
 }
 
 
@@ -470,8 +470,6 @@ def _metric_class(m, ng, flows, vals):
     j = int(m[1:])
     cols = [[r[1 + ng + j] for r in b] for f in flows for b in f]
     k = m[0]
-    if k == "u" and any(col and all(v[0] in ("i", "n") for v in col) for col in cols):
-        return "CountUniqueTypedBatch"
     if k == "f" and any(any(v[0] == "n" for v in col) and not all(v[0] in ("i", "n") for v in col) for col in cols):
         return "CountFieldNullInStringBatch"
     if k in "tamx" and any(v[0] == "f" and L.parse_i64(L.rust_f64_display(v[1]).encode()) is None for v in vals):
@@ -493,7 +491,6 @@ def _judge_run(line, impl):
         return [(f"aggregate pipeline did not answer: {impl}", None)]
     exp, members = _expected(ms, gran, ng, nf, flows)
     kcls = _key_classes(ms, gran, ng, nf, flows)
-    mixed = _mixed_paths(ms, gran, ng, flows)
     out = []
     for key, ems in sorted(exp.items(), key=lambda kv: repr(kv[0])):
         if key not in got:
@@ -514,7 +511,7 @@ def _judge_run(line, impl):
                 g = _final_of_raw(g)
             if not metric_matches(e, g):
                 vals = [fr[int(m[1:])] for fr in members[key]] if m[0] != "c" else []
-                cls = _metric_class(m, ng, flows, vals) or ("UngroupedMixedBatchPaths" if mixed else None) or _merge_target(key, kcls, flows, ng)
+                cls = _metric_class(m, ng, flows, vals) or _merge_target(key, kcls, flows, ng)
                 out.append((f"group {key}: metric {m} = {g}, the fold over the selected events gives {e}", cls))
     for key in got:
         if key not in exp:
@@ -713,7 +710,7 @@ def _eng_judge(c, impl):
         elif agg == "COUNT UNIQUE k":
             got = rows[0].get("count_unique_k") if rows else 0
             if got != len(set(ks)):
-                return bad(f"COUNT UNIQUE {got} vs {len(set(ks))}", "CountUniqueTypedBatch")
+                return bad(f"COUNT UNIQUE {got} vs {len(set(ks))}", "AggregateCountsMoreThanSelected" if got > len(set(ks)) else None)
         elif agg.endswith("BY g"):
             exp = {}
             for x in sel["rows"]:
